@@ -356,6 +356,8 @@ def run(chk):
         return True, "", [i["span"] for i in us]
     chk.ob("C20.R5:send-sync", "the unsafe Send/Sync impls of the shared runtime are conditional on its components", bounds)
 
+    common.builder_rules(chk, P, "C20", lambda b: (b.crate == "emit_core" and b.file.endswith("src/runtime.rs") and "Runtime::<" in b.key)
+                         or (b.crate == "emit" and b.file.endswith("src/setup.rs") and "Setup::<" in b.key), 18)
     common.arg_agreement_rule(chk, P, "C20", [("emit_core", "src/runtime.rs"), ("emit", "src/setup.rs")], 3)
     from . import witness
     witness.witness_rule(chk, "C20", 3)
